@@ -29,6 +29,7 @@ func (a *verifC01VR) Skip()                          { a.vr.SkipVerify() }
 func (a *verifC01VR) Cache(filter func(int64) bool) error {
 	return a.vr.Cache(WithFilter(filter))
 }
+func (a *verifC01VR) CacheReader(sr *io.SectionReader) error { return a.vr.Cache(WithReader(sr)) }
 func (a *verifC01VR) ReadAndCache(id uint32, r io.Reader, off, size int64, dgst string) (error, bool) {
 	return a.vr.readAndCache(id, r, off, size, dgst), true
 }
